@@ -159,6 +159,80 @@ func stuckInCodeUnderTest(stack string) (string, bool) {
 	return "", false
 }
 
+// libraryGoroutinePanic inspects the output of a process that died: a Go panic
+// whose panicking goroutine runs raft-wal code (first frame after the runtime's
+// panic frames) and was not started by the harness. Returns that function.
+func libraryGoroutinePanic(out string) (string, bool) {
+	i := strings.Index(out, "\npanic: ")
+	if i < 0 && !strings.HasPrefix(out, "panic: ") {
+		return "", false
+	}
+	rest := out[i+1:]
+	j := strings.Index(rest, "\ngoroutine ")
+	if j < 0 {
+		return "", false
+	}
+	// the first goroutine listed after the panic message is the panicking one
+	block := rest[j+1:]
+	if k := strings.Index(block, "\n\n"); k > 0 {
+		block = block[:k]
+	}
+	if !strings.Contains(block, "[running]") {
+		return "", false
+	}
+	fn := ""
+	for _, ln := range strings.Split(block, "\n")[1:] {
+		if strings.HasPrefix(ln, "\t") || strings.HasPrefix(ln, "created by ") {
+			continue
+		}
+		switch {
+		case strings.HasPrefix(ln, "panic("), strings.HasPrefix(ln, "runtime."), strings.HasPrefix(ln, "sync."), strings.HasPrefix(ln, "internal/"):
+			continue
+		case strings.HasPrefix(ln, "github.com/hashicorp/raft-wal/verifhook"):
+			return "", false
+		case strings.HasPrefix(ln, "github.com/hashicorp/raft-wal"):
+			if fn == "" {
+				fn = ln
+				if p := strings.LastIndex(fn, "("); p > 0 {
+					fn = fn[:p]
+				}
+				fn = strings.TrimPrefix(fn, "github.com/hashicorp/raft-wal")
+			}
+		case strings.HasPrefix(ln, "verif/sim/"):
+			if fn == "" {
+				// the harness is innermost: its own bug
+				return "", false
+			}
+		default:
+			if fn == "" {
+				// a dependency called by raft-wal (e.g. a nil logger): keep looking for the raft-wal caller
+				continue
+			}
+		}
+	}
+	if fn == "" {
+		return "", false
+	}
+	// a goroutine running a harness task would have been recovered by the task
+	// wrapper; only goroutines created by the library reach this point
+	if !strings.Contains(block, "created by github.com/hashicorp/raft-wal") {
+		return "", false
+	}
+	return fn, true
+}
+
+func profileJudgesPanics(prop string) bool {
+	if _, ok := customRunners[prop]; ok {
+		return true
+	}
+	for _, o := range oraclesOf[prop] {
+		if o == "no-panic" {
+			return true
+		}
+	}
+	return false
+}
+
 // SeedOf is the seed of run i of a batch.
 func SeedOf(base uint64, i uint64) uint64 { return tape.Mix(base, i) }
 
@@ -209,11 +283,9 @@ func WorkerMain(args []string) {
 		}
 		wo.LastSeed = seed
 		curSeed = seed
-		if k%64 == 0 {
-			// lets the master attribute a worker that died (panic in a library
-			// goroutine) to a seed
-			os.WriteFile(progress, []byte(strconv.FormatUint(seed, 10)), 0o644)
-		}
+		// lets the master attribute a worker that died (panic in a goroutine the
+		// library started itself, which no harness wrapper can recover) to a seed
+		os.WriteFile(progress, []byte(strconv.FormatUint(seed, 10)), 0o644)
 		r := RunSeed(*prop, seed, *tier)
 		wo.Runs++
 		st := r.Stats
@@ -340,6 +412,9 @@ func ReplayMain(args []string) {
 	if rp.Race && !sched.EdgeFree {
 		replayRace(rp, fs.Arg(0))
 	}
+	if rp.Child && os.Getenv("WALSIM_REPLAY_CHILD") == "" {
+		replayInChild(rp, fs.Arg(0))
+	}
 	sched.OnStuck = func(desc, stack string) {
 		if what, ok := stuckInCodeUnderTest(stack); ok {
 			fmt.Printf("class=blocked-forever:%s\n%s\n%s\n", what, desc, stack)
@@ -364,6 +439,33 @@ func ReplayMain(args []string) {
 	fmt.Printf("class=%s\n%s\n", r.Viol.Class, r.Viol.Error())
 	fmt.Printf("VIOLATION property=%s replay=%s\n", rp.Property, fs.Arg(0))
 	os.Exit(1)
+}
+
+// replayInChild re-executes a replay whose violation is the death of the whole
+// process (a panic in a goroutine the library started).
+func replayInChild(rp *Replay, file string) {
+	exe, _ := os.Executable()
+	cmd := exec.Command(exe, "replay", file)
+	cmd.Env = append(os.Environ(), "WALSIM_REPLAY_CHILD=1")
+	ob, _ := cmd.CombinedOutput()
+	code := -1
+	if cmd.ProcessState != nil {
+		code = cmd.ProcessState.ExitCode()
+	}
+	if fn, ok := libraryGoroutinePanic(string(ob)); ok && code == 2 {
+		fmt.Printf("class=process-killed-by-panic:%s\n%s\n", fn, tailBytes(ob, 3000))
+		fmt.Printf("VIOLATION property=%s replay=%s\n", rp.Property, file)
+		os.Exit(1)
+	}
+	if code == 0 {
+		fmt.Println("no violation")
+		os.Exit(0)
+	}
+	fmt.Printf("replay child ended with exit code %d:\n%s\n", code, tailBytes(ob, 3000))
+	if code == 1 {
+		os.Exit(1)
+	}
+	os.Exit(2)
 }
 
 // ---------------------------------------------------------------- master
@@ -497,6 +599,20 @@ func CheckMain(args []string) {
 		if werr != nil || rerr != nil {
 			eb, _ := os.ReadFile(filepath.Join(tmp, fmt.Sprintf("w%d.err", i)))
 			cur, _ := os.ReadFile(filepath.Join(replays, fmt.Sprintf(".current-%s-%d", *prop, i)))
+			if fn, ok := libraryGoroutinePanic(string(eb)); ok && profileJudgesPanics(*prop) {
+				if sd, perr := strconv.ParseUint(strings.TrimSpace(string(cur)), 10, 64); perr == nil && sd != 0 {
+					cfg, plan := Generate(*prop, sd, *tier)
+					class := "process-killed-by-panic:" + fn
+					rp := &Replay{Property: *prop, Seed: sd, Config: cfg, Plan: plan, FromSeed: true, Child: true,
+						Violation: &Violation{Property: *prop, Oracle: "no-panic", Class: class, Message: "a goroutine started by raft-wal itself panicked and took the process down:\n" + tailBytes(eb, 3000)},
+						Note:      "replay re-executes the seed in a child process and reports the same fatal panic"}
+					path := filepath.Join(replays, fmt.Sprintf("%s-fatal-%d.json", *prop, sd))
+					rp.Write(path)
+					merged.Violations = append(merged.Violations, FoundViolation{Class: class, Oracle: "no-panic", Message: rp.Violation.Message, Replay: path, Seed: sd})
+					os.Remove(filepath.Join(replays, fmt.Sprintf(".current-%s-%d", *prop, i)))
+					continue
+				}
+			}
 			msg := fmt.Sprintf("worker %d died: %v (near seed %s)\n%s", i, werr, string(cur), tailBytes(eb, 6000))
 			trouble = append(trouble, msg)
 			continue
